@@ -163,6 +163,12 @@ mod verif_c15_sort {
     //@ob id=C15.sort.3.last_unrecognised_ax flags=noassert props=C15 tier=quick kind=harness fns=planes.rs:sort_printed_planes bounded=3-rows
     //@region sort_printed_planes with -o "ax" on 3 rows in any input order, symbolic keys incl. blanks and ties: each row listed exactly once; the key of the last recognised letter monotone down the table (no recognised letter: order unchanged, i.e. the ascending address order print() established)
     sort_harness!(c15_sort_3_last_unrecognised_ax, "ax");
+    //@ob id=C15.sort.3.desc_then_asc_As flags=noassert props=C15 tier=quick kind=harness fns=planes.rs:sort_printed_planes bounded=3-rows
+    //@region sort_printed_planes with -o "As" (a descending key followed by an ascending one: the direction of an earlier letter must not leak into the last) on 3 rows in any input order, symbolic keys incl. blanks and ties: each row listed exactly once; the key of the last recognised letter monotone down the table in ITS OWN direction
+    sort_harness!(c15_sort_3_desc_then_asc_as, "As");
+    //@ob id=C15.sort.3.desc_then_asc_Dv flags=noassert props=C15 tier=quick kind=harness fns=planes.rs:sort_printed_planes bounded=3-rows
+    //@region sort_printed_planes with -o "Dv" (a descending key followed by an ascending one: the direction of an earlier letter must not leak into the last) on 3 rows in any input order, symbolic keys incl. blanks and ties: each row listed exactly once; the key of the last recognised letter monotone down the table in ITS OWN direction
+    sort_harness!(c15_sort_3_desc_then_asc_dv, "Dv");
     //@ob id=C15.sort.3.none_xyz flags=noassert props=C15 tier=quick kind=harness fns=planes.rs:sort_printed_planes bounded=3-rows
     //@region sort_printed_planes with -o "xyz" on 3 rows in any input order, symbolic keys incl. blanks and ties: each row listed exactly once; the key of the last recognised letter monotone down the table (no recognised letter: order unchanged, i.e. the ascending address order print() established)
     sort_harness!(c15_sort_3_none_xyz, "xyz");
